@@ -4,16 +4,16 @@ C01 — parsed results conform to the declared type and constraints.
 Executable model of what `transformer(value, T)` does for every kind of declared type `T`
 (`parse`, by recursion on a fuel argument that bounds the nesting of declarations + values):
 
-  TypeTransformer.__call__ / apply           transform.py:704-727     leaf: `Utv.Conv.transformU` (C12's converter model,
+  TypeTransformer.__call__ / apply           transform.py:711-734     leaf: `Utv.Conv.transformU` (C12's converter model,
                                                                       branch for branch — NOT abstract here)
   transform_rule → Rule.parse                rule.py:1689-1760        `ruleParse`
   Rule._parse_seq_args / _parse_tuple_args / _parse_map_args
-                                             rule.py:1908-2059        `seqLoop` / `tupleArgs` / `mapLoop` (+ re-wrap `origin(value)`)
-  validator loop over `cls.__validators__`   rule.py:1736-1751        `validatePhase` = `Utv.Rule.validate` over the GENERATED
+                                             rule.py:1911-2062        `seqLoop` / `tupleArgs` / `mapLoop` (+ re-wrap `origin(value)`)
+  validator loop over `cls.__validators__`   rule.py:1736-1755        `validatePhase` = `Utv.Rule.validate` over the GENERATED
                                                                       validators (`Utv.Gen.Constraints`, T1)
   LogicalType.logical_parse  (& | ^ ~)       rule.py:364-477          `allLoop` / `unionParse` / `xorLoop` / `negLoop`
   transform_dataclass / init_dataclass       cls.py:567-630           `dataParse`
-  field-first search + ParserField.parse_value   base.py:552-…, field.py:1012-1105   `fieldStep` / `fieldsLoop` / `additions`
+  field-first search + ParserField.parse_value   base.py:552-…, field.py:1043-1125   `fieldStep` / `fieldsLoop` / `additions`
   FunctionParser params + parse_result       func.py:721-730          `callFn`
 
 Error collection (`collect_errors`) does not change whether a parse returns: every collected error is raised by
@@ -384,7 +384,7 @@ def negLoop (p : Ty → V → Outcome V) : List Ty → V → Outcome V
     | .unmodelled w => .unmodelled w
     | _ => .ok v
 
-/-! ## data classes (cls.py:567-630, base.py field-first search, field.py:1012-1105) -/
+/-! ## data classes (cls.py:567-630, base.py field-first search, field.py:1043-1125) -/
 
 /-- `data[name]` on the keyword mapping handed to `__init__` -/
 def lookupKey (name : String) : List (V × V) → Option V
